@@ -159,7 +159,7 @@ def run(ctx, chk):
         chk.ob("C20.signalling", "_cbor_safe_signaling_add path %d: sum returned only after _cbor_safe_to_add" % k, ok,
                "%s:%d" % (sa.file, sa.line), fn=sa.name, key="ssa:%d" % k)
     nss = len(list(ss.calls("_cbor_safe_signaling_add")))
-    chk.floor("C20.signalling", "signalling adds in cbor_serialized_size", nss, 7)
+    chk.floor("C20.signalling", "signalling adds in cbor_serialized_size", nss, 4)
 
     # ---- allocation sizes
     nal = 0
